@@ -914,6 +914,33 @@ func checkReal(d string, mods []modVer) (viol, note string) {
 	if resp.StatusCode != 200 || string(body) != modOf(m) {
 		return fmt.Sprintf("real Server: GET .mod of %s = %d %q, stored %q", m, resp.StatusCode, body, modOf(m)), ""
 	}
+	// other spellings of a stored module's URLs (an empty, "." or ".." element)
+	// name nothing that is stored: 404, not a redirect to the stored module
+	noFollow := &http.Client{CheckRedirect: func(*http.Request, []*http.Request) error { return http.ErrUseLastResponse }}
+	base := strings.TrimSuffix(srv.URL, "/mod")
+	good := reqURL(m.Path, m.Vers, "info")
+	i := strings.Index(good, "/@v/")
+	for _, u := range []string{
+		"/mod/x/.." + strings.TrimPrefix(good, "/mod"),
+		"/mod/" + strings.Replace(strings.TrimPrefix(good, "/mod/"), "/", "//", 1),
+		"/mod/." + strings.TrimPrefix(good, "/mod"),
+		good[:i] + "/@v//" + good[i+len("/@v/"):],
+		good[:i] + "/@v/./" + good[i+len("/@v/"):],
+		good[:i] + "/x/../@v/" + good[i+len("/@v/"):],
+		good[:i] + "/@v/x/../list",
+		"/x/.." + good,
+		"//mod" + strings.TrimPrefix(good, "/mod"),
+	} {
+		resp, err := noFollow.Get(base + u)
+		if err != nil {
+			return fmt.Sprintf("real Server over %v: GET %s fails: %v", mods, u, err), ""
+		}
+		io.Copy(io.Discard, resp.Body)
+		resp.Body.Close()
+		if resp.StatusCode != 404 {
+			return fmt.Sprintf("real Server over %v: GET %s (another spelling of a stored module's URL, itself not stored) = %d %s, want 404", mods, u, resp.StatusCode, resp.Header.Get("Location")), ""
+		}
+	}
 	return "", ""
 }
 
